@@ -18,7 +18,7 @@ RULE = ('every shipped Transformation with a date reference epoch (all enumerate
         'parameters (2 um); equals conform7 at the reference epoch; set then negated set at the same epoch closes within the C06 '
         'bound; ATRF2014<->GDA2020 wrappers are mutual inverses within that bound and bit-exact identity at 2020-01-01; with a '
         'covariance and uncertainties the result equals J Q J^T with sigma(t)^2 = sigma^2 + (sigma_rate * dt)^2.  '
-        '3 % of the judged calls are preceded by calls the property does not speak about (strings, None, numbers or malformed covariance where a parameter set, a date or a 3x3 matrix is required; a Transformation plus a number): not judged, exceptions swallowed.  expectations for shipped sets and for the plate-motion wrappers are built from the parameters as imported (a constant rewritten by a call shows as a wrong result); a fifth of the wrapper cases are preceded by ONE call at exactly the reference epoch.  distinct = set x epoch class x octant x radius decade')
+        '3 % of the judged calls are preceded by calls the property does not speak about (strings, None, numbers or malformed covariance where a parameter set, a date or a 3x3 matrix is required; a Transformation plus a number): not judged, exceptions swallowed.  expectations for shipped sets and for the plate-motion wrappers are built from the parameters as imported (a constant rewritten by a call shows as a wrong result); a fifth of the wrapper cases are preceded by ONE call at exactly the reference epoch.  distinct = set x epoch class x octant x radius decade A share of the cases hands conform14 a set that was first moved to another date (set + date; its reference epoch must be that date), and a quarter of the random sets have parameters of the size C06 allows.')
 ASSUMPTIONS = ['helmert_exact (self-validated each shard)', 'Julian year = 365.25 days counted from datetime.date ordinals',
                'uncertainty of a propagated parameter: sqrt(sd^2 + (sd_rate * dt)^2), as documented in Transformation.__add__']
 N = {'quick': 1500, 'thorough': 25000}
